@@ -148,6 +148,7 @@ class PySnmpCodeGen(IntermediateCodeGen):
                                  trim_blocks=True, lstrip_blocks=True)
 
         env.filters['capfirst'] = jfilters.capfirst
+        env.filters['wordwrap'] = jfilters.wordwrap
 
         try:
             tmpl = env.get_template(dstTemplate or self.TEMPLATE_NAME)
